@@ -257,7 +257,8 @@ def gen_zone_z(rng):
 
 
 HOLO_T = ['["example"∧REQ→§SELF]', '["x"∧REQ]', '[1∧TYPE[NUMBER]]', '["a"∧ENUM[a,b]→§T]', '["d"∧REQ∧REGEX["^a$"]→§INDEXER]', '[null∧REQ]',
-          '["a\\tb"∧REQ]', '[true∧OPT→§INDEXER]', '["v"∧REGEX["^a$"]]', '[2.5∧OPT]']
+          '["a\\tb"∧REQ]', '[true∧OPT→§INDEXER]', '["v"∧REGEX["^a$"]]', '[2.5∧OPT]', '["x"∧REQ∧OPT]', '["a b"∧OPT→§SELF]',
+          '["x"∧ENUM["a","b c"]]', '[""∧REQ∧OPT→§INDEXER]']
 _TARGETS = [False]
 
 
@@ -367,7 +368,13 @@ def run2(ctx, n, have_model, gen="core2"):
             indom = bits & need == need
             if gen == "coret":
                 inT = not r.startswith("X")
-                r = r.lstrip("X")
+                inD = r.startswith("D")      # domain of the text-level theorem C02_text_roundtrip_holographic_target_chains (extracted predicate)
+                r = r.lstrip("DX")
+                ctx.hist("theorem_domain_coreth4", "coreth4+lex_safeth4" if inD else "coret only" if inT else "outside coret")
+                if inD and r in ("2", "3"):
+                    ctx.correspondence_failure({"doc": d, "text": t, "shape_check": r},
+                                               "document in the domain of lex_emit_coreth4 but the extracted lexer model does not produce "
+                                               "the shape: theorem and extraction disagree")
                 ctx.hist("coret_shape_check", ("coret:" if inT else "outside coret:") + {"0": "site outside the proved class", "1": "shape-ok", "2": "mismatch", "3": "LEXERR"}.get(r, r))
                 continue
             if gen == "corez":
